@@ -74,6 +74,16 @@ theorem mod_spec (a b : Int) (h0 : b ≠ 0) :
   · have h1 := Int.tmod_add_mul_tdiv a b
     exact ⟨a.tdiv b, by omega⟩
 
+/-- the decision procedure `remOk` used as the specification of `%` in the correspondence is
+    exactly the property's relation -/
+theorem remOk_iff (a b r : Int) : remOk a b r = true ↔ (r.natAbs < b.natAbs ∧ b ∣ a - r) := by
+  simp [remOk, Int.dvd_iff_emod_eq_zero]
+
+/-- the model's `%` meets the relation -/
+theorem mod_remOk (a b : Int) (h0 : b ≠ 0) : ∃ r, mod a b = .int r ∧ remOk a b r = true := by
+  obtain ⟨r, h, h1, h2⟩ := mod_spec a b h0
+  exact ⟨r, h, (remOk_iff a b r).2 ⟨h1, h2⟩⟩
+
 /-- **Zero divisor.** `/`, `//` and `%` by zero raise ZeroDivisionErr. -/
 theorem zero_divisor (a : Int) : div a 0 = .zeroDiv ∧ floorDiv a 0 = .zeroDiv ∧ mod a 0 = .zeroDiv := by
   simp [div, floorDiv, mod]
